@@ -68,14 +68,23 @@ func verifHarness_C14_deadlines(k1 int, k2 int, k3 int, fail int) {
 	buf := make([]byte, 4)
 	for i := 0; i < 3; i++ {
 		before := len(fake.events)
+		r0 := verifClockReadings()
 		var err error
 		if kinds[i] == 0 {
 			_, err = c.Read(buf)
 		} else {
 			_, err = c.Write(buf)
 		}
-		now := verifClockLast()
-		verifAssert(verifClockReadings() == i+1, "C14/T1/one-clock-reading-per-call")
+		r1 := verifClockReadings()
+		// the deadline is armed afresh: from a clock reading taken during this very call
+		verifAssert(r1 > r0, "C14/T1/clock-read-during-the-call")
+		armedFrom := func(d time.Time, timeout int64) bool {
+			ok := false
+			for j := r0; j < r1; j++ {
+				ok = verifOr(ok, d.Equal(verifClockAt(verifClockReadingAt(j)).Add(time.Duration(timeout))))
+			}
+			return ok
+		}
 		if fail == 1 {
 			verifAssert(err == verifErrDeadline, "C14/T1/deadline-error-reported")
 			verifAssert(len(fake.events) == before+1, "C14/T1/deadline-error-short-circuits-the-call")
@@ -88,10 +97,10 @@ func verifHarness_C14_deadlines(k1 int, k2 int, k3 int, fail int) {
 		}
 		if kinds[i] == 0 {
 			verifAssert(fake.events[before] == 0 && fake.events[before+1] == 2, "C14/T1/read-preceded-by-read-deadline")
-			verifAssert(fake.deadlines[i].Equal(verifClockAt(now).Add(time.Duration(rt))), "C14/T1/read-deadline-is-now-plus-idle-timeout")
+			verifAssert(armedFrom(fake.deadlines[i], rt), "C14/T1/read-deadline-is-now-plus-idle-timeout")
 		} else {
 			verifAssert(fake.events[before] == 1 && fake.events[before+1] == 3, "C14/T1/write-preceded-by-write-deadline")
-			verifAssert(fake.deadlines[i].Equal(verifClockAt(now).Add(time.Duration(wt))), "C14/T1/write-deadline-is-now-plus-write-timeout")
+			verifAssert(armedFrom(fake.deadlines[i], wt), "C14/T1/write-deadline-is-now-plus-write-timeout")
 		}
 	}
 	verifAssert(c.Close() == nil && fake.events[len(fake.events)-1] == 5, "C14/T1/close-forwarded")
